@@ -10,12 +10,16 @@ def tasks(tier, seed):
     # early close while the workers are busy (abort paths)
     ts += SCH.sched_tasks(tier, [], 'race_close', None, {'race', 'memory', 'uncaught_exception', 'terminate', 'deadlock', 'hang', 'leak'},
                           race=True, in_cs=True, extra_defs='#undef EARLY_CLOSE_AFTER\n#define EARLY_CLOSE_AFTER 1\n', nobj=3)
+    # the application polls good() / eof() after every write() while the workers run
+    ts += SCH.sched_tasks(tier, [], 'race_poll', None, {'race', 'memory', 'uncaught_exception', 'terminate', 'deadlock', 'hang', 'leak'},
+                          race=True, in_cs=True, child_first=True, extra_defs='#define POLL_STATE 1\n', nobj=3)
     # the container size is changed through the public API while the write session runs (workers really park on the
     # scaled-down thresholds, so the application thread runs while the compressor is between two of its steps)
     for cf in (False, True):
         ts += SCH.sched_tasks(tier, [], 'race_grow%s' % ('_child_first' if cf else ''), None,
                               {'race', 'memory', 'uncaught_exception', 'terminate', 'deadlock', 'hang', 'leak'}, race=True, in_cs=True,
-                              child_first=cf, extra_defs='#define SCALE_THRESHOLDS 1\n#define GROW_CONTAINER_DURING_WRITE 0\n', nobj=4)
+                              child_first=cf, extra_defs='#define SCALE_THRESHOLDS 1\n#define GROW_CONTAINER_DURING_WRITE 0\n'
+                                         '#define SCALED_BUFFER (3 * containerSize + 80)   /* the API keeps buffer >= container size */\n', nobj=4)
     ts += SCH.two_file_tasks(tier, 'race', {'race', 'memory', 'uncaught_exception', 'terminate', 'deadlock', 'hang'}, race=True)
     meta = dict(
         level='model_checking',
